@@ -3578,6 +3578,10 @@ static Token *function(Token *tok, Type *basety, VarAttr *attr) {
   if (consume(&tok, tok, ";"))
     return tok;
 
+  // A block may declare a function but not define one.
+  if (current_fn && equal(tok, "{"))
+    error_tok(tok, "function definition is not allowed here");
+
   current_fn = fn;
   locals = NULL;
   enter_scope();
